@@ -67,6 +67,17 @@ func (m *Manager) VerifBufferReport() []VerifBuffer {
 				}
 			}
 			add(fmt.Sprintf("scope[%s].acct[%d].acctKeyPriv", scope, acct), st)
+			for nm, la := range map[string]ManagedAddress{
+				"lastExternalAddr": info.lastExternalAddr,
+				"lastInternalAddr": info.lastInternalAddr,
+			} {
+				if a, ok := la.(*managedAddress); ok {
+					a.privKeyMutex.Lock()
+					add(fmt.Sprintf("scope[%s].acct[%d].%s.privKeyCT",
+						scope, acct, nm), verifBytesState(a.privKeyCT))
+					a.privKeyMutex.Unlock()
+				}
+			}
 		}
 		for _, ma := range s.addrs {
 			name := fmt.Sprintf("scope[%s].addr[%s]", scope, ma.Address())
